@@ -348,8 +348,10 @@ def lexSimple (b : Bytes) (s : LexState) (p : Nat) (next : UInt8) : Except LexEr
   else if next = 9 then .error (.fail p .tabs)
   else .error (.fail p (.unknownSymbol next))
 
-/-- `nextToken`.  The four self-calls of the Go code (after `\r`, after a blank line, after a suppressed
-    end-of-line, after a comment) are the four recursive calls here. -/
+/-- `nextToken`.  The Go function is one `for { … }` whose four `continue`s (after `\\r`, after a blank line,
+    after a suppressed end-of-line, after a comment — self-calls before the repair of the finding
+    lexer-recursion-stack-overflow) start the next iteration at stripSpaces with the state as it is: these are
+    the four recursive calls here. -/
 def nextToken (b : Bytes) (s : LexState) : Except LexErr (Token × LexState) :=
   match hs : skipSpaces b s.pos with
   | .error e => .error e
